@@ -29,6 +29,8 @@ class VirtualClock(object):
         return self.now
 
     def sleep(self, d):
+        if d is not None and d < 0:
+            raise ValueError('sleep length must be non-negative')      # as time.sleep does
         if d and d > 0:
             self.now += d
         if self.on_sleep is not None:
@@ -392,7 +394,35 @@ def installed(env):
         _cs.time, _cs.select, _cs.socket, _tx.time, _rf.time, _pyserial.Serial = saved
 
 
+_DECOY_CLIENT = [None]
+_VENDOR_RSP = []
+
+
 def make_client(kind, **kw):
+    """the client under test - and, alive beside it, a second client object of the process that has registered an application's own
+    response classes (client.register(): a vendor function code and its own version of FC3): nothing of that may reach the first"""
+    c = _make_client(kind, **dict(kw))
+    try:
+        if not _VENDOR_RSP:
+            from pymodbus.pdu import ModbusResponse
+            from pymodbus.register_read_message import ReadHoldingRegistersResponse
+
+            class VendorReadResponse(ReadHoldingRegistersResponse):
+                def decode(self, data):
+                    self.registers = [0xBEEF]
+            ns = {'function_code': 0x41, '_rtu_byte_count_pos': 2, '__init__': lambda self, **k: ModbusResponse.__init__(self, **k), 'encode': lambda self: b'',
+                  'decode': lambda self, data: None}
+            _VENDOR_RSP.extend([VendorReadResponse, type('VendorResponse_41', (ModbusResponse,), ns)])
+        other = _make_client(kind, **dict(kw))
+        for cls in _VENDOR_RSP:
+            other.register(cls)
+        _DECOY_CLIENT[0] = other
+    except Exception:  # noqa
+        pass
+    return c
+
+
+def _make_client(kind, **kw):
     """kind: tcp | rtu-over-tcp | ascii-over-tcp | binary-over-tcp | udp | rtu | ascii | binary"""
     from pymodbus.transaction import ModbusRtuFramer, ModbusAsciiFramer, ModbusBinaryFramer
     kw.setdefault('timeout', 1)
